@@ -9,7 +9,7 @@
 From Coq Require Import QArith Qminmax List Bool Arith.
 From WSI Require Import Vqip Pow Tank Arc QTank Distrib Run TankLaws ArcLaws QTankLaws QueueLaws DistribLaws.
 From WSI Require Net NetLaws.
-From WSI Require Kinds TimeArea Boundary Demand DemandLaws Wtw WtwLaws.
+From WSI Require Kinds TimeArea Boundary Demand DemandLaws Wtw WtwLaws LandV LandLaws.
 Import ListNotations.
 Open Scope Q_scope.
 
@@ -129,3 +129,14 @@ Theorem C01_wwtw_calculate_discharge_conserves : forall S (w : Wtw.wwtw S) c, co
   cmp c (Wtw.ww_cur S w) + cmp c (Wtw.ww_liquor S w) + cmp c (t_sto (Wtw.ww_tank S w)).
 Proof. exact WtwLaws.ww_calculate_conserves. Qed.
 Print Assumptions C01_wwtw_calculate_discharge_conserves.
+
+(* ---- the pervious surface of a Land node (coq/LandV.v, tied by family land) ----
+   IHACRES creates and loses no water: soil store after + infiltration excess + subsurface flow + percolation = soil store
+   before + rain - evaporation, in every moisture state and for all soil parameters with coefficients in [0, 1] *)
+Theorem C01_pervious_surface_water_balance : forall p area t rain et0 T tn,
+  0 < area -> 0 <= vol (t_sto t) -> 0 <= et0 -> 0 <= LandV.ps_et0c p -> 0 <= rain -> 0 <= LandV.ps_infil p ->
+  0 <= LandV.ps_surf_c p <= 1 -> 0 <= LandV.ps_perc_c p <= 1 ->
+  let '(t', excess, ssf, perc, pr, ev) := LandV.ihacres p area t rain et0 T tn in
+  vol (t_sto t') + vol excess + vol ssf + vol perc == vol (t_sto t) + pr - ev.
+Proof. exact LandLaws.ihacres_water_balance. Qed.
+Print Assumptions C01_pervious_surface_water_balance.
